@@ -59,6 +59,7 @@ def prepare(release=False):
     gen_coq.gen_table(load_ref("table.json"), "RefTable", "ref/table.json")
     gen_coq.gen_reflect(facts["reflect"], facts["builder"], "ReflectData", "rspirv/grammar/reflect.rs, rspirv/dr/build/*.rs via rs2coq")
     gen_coq.gen_ref_classes(load_ref("opclass.json"), "RefClasses")
+    gen_coq.gen_traverse(facts["traverse"], "TraverseData", "rspirv/dr/constructs.rs, rspirv/binary/assemble.rs via rs2coq")
     if p.dump_spirv is not None:
         gen_coq.gen_spirv_dump(p.dump_spirv, "DumpSpirv")
     if p.dump_grammar is not None:
